@@ -131,13 +131,20 @@ func parseFmtCfg(name string) fmtCfg {
 }
 
 // judge one message's three encodings; returns verdict tokens
-func judge(t *toks, o fmtOut, fc fmtCfg) {
+func judge(t *toks, o fmtOut, fc fmtCfg, plain bool) {
 	if o.jerr != nil || o.terr != nil || o.berr != nil {
 		t.S("fmterr")
 		return
 	}
 	t.S("b")
 	t.B(o.bin)
+	if plain {
+		// default formatter configuration: the JSON and text bytes themselves (compared with Model/Render.v)
+		t.S("j")
+		t.B(o.json)
+		t.S("t")
+		t.B(o.text)
+	}
 	if json.Valid(o.json) {
 		t.S("jsonok")
 	} else {
@@ -252,7 +259,7 @@ func init() {
 			}
 			t.N(uint64(len(mf.out)))
 			for _, o := range mf.out {
-				judge(&t, o, fc)
+				judge(&t, o, fc, a[1] == "none")
 				if o.berr == nil {
 					stream.Write(o.bin)
 					total++
